@@ -6,7 +6,9 @@ from jinns.loss._DynamicLossAbstract import ODE, PDEStatio, PDENonStatio
 
 
 def _eq_flat(params, keys):
-    return [jnp.reshape(jnp.asarray(params.eq_params[k], dtype=float), (-1,)) for k in keys]
+    # scalar parameters: the equation reads "whatever the parameter holds" as one number (a whole column handed to a
+    # single point then shows up as a wrong value instead of a shape error inside the uninterpreted residual)
+    return [jnp.reshape(jnp.sum(jnp.asarray(params.eq_params[k], dtype=float)), (1,)) for k in keys]
 
 
 class OpODE(ODE):
